@@ -143,16 +143,15 @@ def run(facts, res):
     if len(block_sites) == 1:
         bs = block_sites[0]
         n3 = 0
-        for s in cg.sites[c.path]:
-            cal = s.callee
-            if cal is None:
-                continue
+        from ..common import inlined_sites
+        for s in inlined_sites(facts, c, lambda t: t.callee.target() == "revisiontree::RevisionTree::commit" or (t.callee.name == "insert" and bool(t.args))):
+            cal = s.term.callee
             is_tree_commit = cal.target() == "revisiontree::RevisionTree::commit"
-            is_delta_insert = cal.name == "insert" and s.term.args and "deltas" in field_path(arg_term(c, s.term, 0))[0]
+            is_delta_insert = cal.name == "insert" and s.args and "deltas" in field_path(s.args[0])[0]
             if not (is_tree_commit or is_delta_insert):
                 continue
             n3 += 1
-            ok = success_dominates(c, bs.block, s.block, facts)
+            ok = s.outer_body is c and success_dominates(c, bs.block, s.outer_block, facts)
             res.instance("O3", "commit: %s only after the block write succeeded: %s" % ("RevisionTree::commit" if is_tree_commit else "deltas.insert", ok), s.loc())
             if not ok:
                 res.violation("O3", "commit|%s-before-block-write" % ("tree-commit" if is_tree_commit else "deltas-insert"),
